@@ -17,6 +17,20 @@ CHECKS = {
             "sampling the circle. Exploration: no counter-example inside the stated bounds, exhaustive on the grid.",
             "trusted: fractions.Fraction reference (geom2d.py), CPython float arithmetic; tolerance 1e-7*max(1,extent)",
             "DESIGN.md §2 C13"),
+    "C14": ("property-based testing (Hypothesis) + atheris bridge, oracle = independent unit-vector spherical geometry, "
+            "metamorphic end-point swap",
+            "Distance, destination, point-to-segment, segment-to-segment and box are compared with an independent 3-D "
+            "unit-vector computation on the same sphere at generated origins (|lat|<=60), segment lengths 0.1 m-3 km and "
+            "query points within 3 lengths; swap invariance and box containment are checked on every case. Exploration.",
+            "trusted: geomsph.py (Kahan angle formula, cancellation-free cross product); tolerances 1e-6 m (distance), "
+            "0.25 m + 1e-6 L (projections), stated in evidence",
+            "DESIGN.md §2 C14"),
+    "C20": ("property-based testing (Hypothesis) + atheris bridge, oracle = validity predicate over the output",
+            "Generated traces (1-6 points, repeated points, exact-multiple spacings, both metrics) are interpolated and the "
+            "output is checked structurally: originals kept in order, inserted points on the straight / great-circle "
+            "connection and monotone along it, no gap above the spacing. Exploration.",
+            "trusted: geom2d.py / geomsph.py; tolerance 1e-9 relative (planar), 1e-4 m + 1e-7 L (lat/lon)",
+            "DESIGN.md §2 C20"),
 }
 
 PENDING_REASON = "check not built yet in this revision of /verif (planned, see DESIGN.md §2); no claim is made"
